@@ -192,7 +192,10 @@ TMark == /\ Ev.e \in {"Quiescent", "Timeout", "Block", "CleanupDone"}
                                                             \* a running payload did not answer a command within 1 s
                                                             \* although nothing has triggered termination
                                                             !.stall = @ \/ (Ev.what = "command" /\ phase[1] = "running" /\ ~Triggered
-                                                                            /\ Ev.p \in Payloads /\ pst[Ev.p] = "running")]
+                                                                            /\ Ev.p \in Payloads /\ pst[Ev.p] = "running"),
+                                                            \* the script could not even be played to its end within the scenario's
+                                                            \* time limit (many seconds) and an adopt() is still in its call
+                                                            !.adoptstuck = @ \/ (Ev.what = "driver" /\ \E p \in Payloads : pst[p] = "submitting" /\ adoptret[p] = "-")]
                        [] Ev.e = "Block" -> [marks EXCEPT !.blocked = TRUE]
                        [] OTHER -> marks
          /\ UNCHANGED <<phase, guard, pst, starts, endhow, cleanleft, adoptret, sigint, shut, result, xst, h, where, xobs, segopen>>
